@@ -163,6 +163,9 @@ func init() {
 		"vSame": func(x *Exec, fr *frame, fn *ssa.Function, a []Value) Value {
 			return x.sameVal(a[0], a[1])
 		},
+		"vIdentical": func(x *Exec, fr *frame, fn *ssa.Function, a []Value) Value {
+			return x.ts.Bool(x.identical(a[0], a[1]))
+		},
 		"vStrEq": func(x *Exec, fr *frame, fn *ssa.Function, a []Value) Value {
 			return x.ts.StrEq(a[0].(Str), a[1].(Str))
 		},
@@ -545,3 +548,54 @@ func (x *Exec) eqValLoose(a, b Value) *Term {
 }
 
 var _ = fmt.Sprintf
+
+// identical: syntactic identity without forcing lazy nodes or consulting the solver.
+func (x *Exec) identical(a, b Value) bool {
+	if la, ok := a.(*Lazy); ok {
+		if lb, ok := b.(*Lazy); ok && la == lb {
+			return true
+		}
+		if la.Res == nil {
+			return false
+		}
+		a = *la.Res
+	}
+	if lb, ok := b.(*Lazy); ok {
+		if lb.Res == nil {
+			return false
+		}
+		b = *lb.Res
+	}
+	ia, ok1 := a.(Iface)
+	ib, ok2 := b.(Iface)
+	if !ok1 || !ok2 {
+		return false
+	}
+	if ia.T == nil || ib.T == nil {
+		return ia.T == nil && ib.T == nil
+	}
+	if !types.Identical(ia.T, ib.T) {
+		return false
+	}
+	switch av := ia.V.(type) {
+	case *MapObj:
+		return av == ib.V.(*MapObj)
+	case Slice:
+		bs := ib.V.(Slice)
+		return av.A == bs.A && av.Off == bs.Off && av.Len == bs.Len
+	case *Term:
+		return av == ib.V.(*Term) && av.S.K != KFP
+	case Str:
+		bs := ib.V.(Str)
+		if len(av.B) != len(bs.B) {
+			return false
+		}
+		for i := range av.B {
+			if av.B[i] != bs.B[i] {
+				return false
+			}
+		}
+		return true
+	}
+	return false
+}
